@@ -14,8 +14,20 @@
      &str source, arbitrary bytes otherwise); `C17_parse_print_valid` — parse then print is valid.
   Proved here in addition: every byte at which a scanner may stop is ASCII; the checked conversions
   reject invalid bytes.
-  The clause "INPUT that is not valid UTF-8 inside a string is rejected" (as opposed to: what is returned
-  is valid), for the Emacs Lisp string syntax, where escape output and raw input meet in one buffer that is
+  The clause "INPUT that is not valid UTF-8 inside a string, symbol or character is rejected" (as opposed
+  to: what is returned is valid), for the R6RS string syntax (the default) and every other option
+  (Proofs/Utf8InputTokBase.lean, Utf8InputTokNum.lean, Utf8InputTok.lean, Utf8InputAll.lean,
+  Utf8InputAllDatum.lean; namespaces `InTok`, `InAll`):
+   * tokens: `InTok.C17_r6rs_str_input_valid(_iff)`, `C17_symbol_input_valid`, `C17_char_input_valid_r6rs`,
+     `C17_char_input_valid_elisp`, and for every token of every kind `InTok.C17_token_input_valid` — an accepted
+     token of a slice or stream source consumed valid UTF-8 (number scanners consume only ASCII);
+   * whole inputs: `InAll.C17_whole_input_valid` / `C17_whole_input_valid_no_comment` (restated below as
+     `C17_ill_formed_input_never_accepted`) and the datum variants — if `from_slice` / `from_reader` accepts
+     `bytes` and every run of trivia is valid UTF-8 (in particular: no `;` at all) then `bytes` is valid UTF-8;
+     `InAll.C17_whole_input_valid_iff`: ill-formed bytes can hide in comments and nowhere else
+     (`comment_may_hide_ill_formed_bytes`: `1;` FF is accepted as 1; `r6rs_hypothesis_needed`: the Emacs string
+     syntax is excluded because of the finding below).  This is exactly the rule the direct oracle checks.
+  The same clause for the Emacs Lisp string syntax, where escape output and raw input meet in one buffer that is
   validated as a whole (Proofs/Utf8Input.lean, Utf8InputLoopBase.lean, Utf8InputLoop.lean):
    * `C17_elisp_backslash_continuation_rejected` — a backslash followed by a continuation byte is an error
      in every state (repair 29, /repo c74523a; `C17_repair29_input_rejected` is the input that exposed it);
@@ -36,6 +48,8 @@ import LexprModel.Proofs.Utf8Valid
 import LexprModel.Proofs.Utf8Parse
 import LexprModel.Proofs.Utf8Input
 import LexprModel.Proofs.Utf8InputLoop
+import LexprModel.Proofs.Utf8InputAll
+import LexprModel.Proofs.Utf8InputAllDatum
 namespace Lexpr
 namespace Parse
 
@@ -96,6 +110,23 @@ theorem C17_elisp_input_clause {cfg : Cfg} {fuel : Nat} {S S' : St} {tok : Token
       ((∃ s, tok = .string s) → fl.hi = false → fl.bl = false → Utf8.valid w = true) ∧
       ((∃ b, tok = .bytes b) → fl.nc = false → Utf8.valid w = true) :=
   InLoop.C17_elisp_token_input_valid h hel hpk hw
+
+/-- the oracle's rule as a theorem: input of a slice or stream source that has no `;`, is accepted as a whole
+    under the R6RS string syntax (any other options), is valid UTF-8 — ill-formed input is never accepted -/
+theorem C17_ill_formed_input_never_accepted {cfg : Cfg} {mode : Mode} {bytes : List UInt8}
+    {faulty : Bool} {v : Value} {S' : St}
+    (h : fromTrait cfg (initSt mode bytes faulty) = .ok v S')
+    (hr6 : cfg.opts.string = .r6rs) (hm : mode ≠ .str) (hno : ∀ b ∈ bytes, b ≠ 59) :
+    Utf8.valid bytes = true :=
+  InAll.C17_whole_input_valid_no_comment h hr6 hm hno
+
+/-- the same through the location-tracking reader -/
+theorem C17_ill_formed_input_never_accepted_datum {cfg : Cfg} {mode : Mode} {bytes : List UInt8}
+    {faulty : Bool} {d : Datum} {S' : St}
+    (h : fromTraitDatum cfg (initSt mode bytes faulty) = .ok d S')
+    (hr6 : cfg.opts.string = .r6rs) (hm : mode ≠ .str) (hno : ∀ b ∈ bytes, b ≠ 59) :
+    Utf8.valid bytes = true :=
+  InAll.C17_whole_input_valid_datum_no_comment h hr6 hm hno
 
 example : Utf8.valid [0xCE, 0xBB, 40, 120, 41] = true ∧ Utf8.valid [0xCE] = false ∧ Utf8.incomplete [0xCE] = true ∧
     Utf8.valid [0xC0, 0x80] = false ∧ Utf8.valid [0xED, 0xA0, 0x80] = false := by decide
